@@ -361,7 +361,7 @@ fn main() {
     };
     let tier = args.tier;
     let dates = b_dates(tier);
-    let times = b_times(true);
+    let times = b_times_fracs(true);
     let offs = b_offsets_small();
     // value lattice for the ts modules (non-leap instants)
     let mut values: Vec<i128> = vec![];
